@@ -1,9 +1,9 @@
 /-
   Oracle commands for C16 (memory estimator):
     c16 <variant 0=pinned|1=fix C16-W1> <numGPU> <overhead> <nproj> {pw pg}* <vw> <vg> <blk0|-> <nblocks> {w|- kv}*
-        <gp> <gf> <gqa> <onorm|-> <out|-> <temb|-> <ngroups> {lib <ngpus> {free min}*}*
-      -> fit=<0|1>,<vram> | <estimate of group 1> | <estimate of group 2> ...
-    where <estimate> = L=.. G=.. V=.. T=.. S=<a,b,..|-> Z=<a,b,..|-> kv=.. mw=.. mo=.. gf=.. gp=.. pw=.. pg=..
+        <gp> <gf> <gqa> <onorm|-> <out|-> <temb|-> <ngpus> {keyclass idclass lib free min}*
+      -> fit=<0|1>,<vram> | <estimate of ByLibrary group 1> | <estimate of group 2> ...   (the model groups)
+    where <estimate> = L=.. G=.. V=.. T=.. S=<a,b,..|-> Z=<a,b,..|-> kv=.. mw=.. mo=.. gf=.. gp=.. pw=.. pg=.. B=<EstimatedVRAMByGPU of each GPU of the group>
     c16free <ngpus> {key idk total free}* <nrunners> {nil | <n> {idk est}*}*
       -> f1,f2,...   (FreeMemory of every GPU after Scheduler.updateFreeSpace)
 -/
@@ -31,10 +31,12 @@ def pGpu : TP Gpu := do
   let m ← nat
   pure ⟨f, m⟩
 
-def pGroup : TP (Lib × List Gpu) := do
+def pFGpu : TP FGpu := do
+  let k ← nat
+  let i ← nat
   let l ← pLib
-  let gs ← listOf pGpu
-  pure (l, gs)
+  let g ← pGpu
+  pure ⟨k, i, l, g⟩
 
 def pPair : TP (Nat × Nat) := do
   let a ← nat
@@ -89,14 +91,17 @@ def handle (toks : List String) : Option String :=
       let onorm ← optNat
       let out ← optNat
       let temb ← optNat
-      let groups ← listOf pGroup
+      let all ← listOf pFGpu
       let common : Inp :=
         { lib := .other, gpus := [], overhead := overhead, projs := projs, vision := (vw, vg),
           blk0 := blk0, blocks := blocks, graphPartial := gp, graphFull := gf, gqa := gqa,
           outNorm := onorm, output := out, tokenEmbd := temb, numGPU := numGPU,
           ovSafe := variant != 0 }
-      let fit := predictFit common groups
-      let ests := groups.map fun (l, gs) => showEst (estimate { common with lib := l, gpus := gs })
+      let fit := predictFitAll common all
+      let ests := (byLibrary all).map fun g =>
+        let e := estimate { common with lib := g.lib, gpus := g.gpus }
+        let ids := g.members.map (·.idk)
+        showEst e ++ " B=" ++ commaOrDash (ids.map (vramByGPU ids e.sizes))
       let f := if fit.1 then "1" else "0"
       pure (joinWith " | " (s!"fit={f},{fit.2}" :: ests))) rest
   | "c16free" :: rest =>
